@@ -43,21 +43,25 @@ func (m *txObjectMap) Add(
 	txObj *TxObject, executable bool, pricing *txPricing,
 	limitPerAccount int, validatePayer func(payer thor.Address, needs *big.Int) error,
 ) error {
+	verifTrace(m, "pre.add", txObj)
 	m.lock.Lock()
 	defer m.lock.Unlock()
 
 	hash := txObj.Hash()
 	if _, found := m.mapByHash[hash]; found {
+		verifTrace(m, "add.dup", txObj)
 		return nil
 	}
 
 	if m.quota[txObj.Origin()] >= limitPerAccount {
+		verifTrace(m, "add.quota", txObj)
 		metricAccountQuotaExceeded().AddWithLabel(1, map[string]string{"type": "account"})
 		return errors.New("account quota exceeded")
 	}
 	delegator := txObj.Delegator()
 	if delegator != nil {
 		if m.quota[*delegator] >= limitPerAccount {
+			verifTrace(m, "add.dquota", txObj)
 			metricAccountQuotaExceeded().AddWithLabel(1, map[string]string{"type": "delegator"})
 			return errors.New("delegator quota exceeded")
 		}
@@ -81,6 +85,7 @@ func (m *txObjectMap) Add(
 			cost = new(big.Int).Add(pending, txObj.Cost())
 		}
 		if err := validatePayer(payer, cost); err != nil {
+			verifTrace(m, "add.payer", txObj)
 			return err
 		}
 	}
@@ -94,6 +99,7 @@ func (m *txObjectMap) Add(
 	}
 	m.mapByHash[hash] = txObj
 	m.mapByID[txObj.ID()] = txObj
+	verifTrace(m, "add", txObj)
 	return nil
 }
 
@@ -104,6 +110,7 @@ func (m *txObjectMap) GetByID(id thor.Bytes32) *TxObject {
 }
 
 func (m *txObjectMap) RemoveByHash(txHash thor.Bytes32) bool {
+	verifTraceHash(m, "pre.remove", txHash)
 	m.lock.Lock()
 	defer m.lock.Unlock()
 
@@ -140,14 +147,17 @@ func (m *txObjectMap) RemoveByHash(txHash thor.Bytes32) bool {
 
 		delete(m.mapByHash, txHash)
 		delete(m.mapByID, txObj.ID())
+		verifTrace(m, "remove", txObj)
 		return true
 	}
+	verifTraceHash(m, "remove.miss", txHash)
 	return false
 }
 
 func (m *txObjectMap) PendingCostOf(payer thor.Address) *big.Int {
 	m.lock.RLock()
 	defer m.lock.RUnlock()
+	verifTraceCost(m, payer)
 	if cost := m.cost[payer]; cost != nil {
 		return new(big.Int).Set(cost)
 	}
@@ -159,12 +169,15 @@ func (m *txObjectMap) PendingCostOf(payer thor.Address) *big.Int {
 // already removed. Idempotent for an already-executable tx. Requires the pricing to have
 // been published (via setPricing) beforehand.
 func (m *txObjectMap) promote(txObj *TxObject) bool {
+	verifTrace(m, "pre.promote", txObj)
 	m.lock.Lock()
 	defer m.lock.Unlock()
 	if _, ok := m.mapByHash[txObj.Hash()]; !ok {
+		verifTrace(m, "promote.miss", txObj)
 		return false
 	}
 	if txObj.executable {
+		verifTrace(m, "promote.noop", txObj)
 		return true
 	}
 	txObj.executable = true
@@ -176,6 +189,7 @@ func (m *txObjectMap) promote(txObj *TxObject) bool {
 			m.cost[payer] = new(big.Int).Set(cost)
 		}
 	}
+	verifTrace(m, "promote", txObj)
 	return true
 }
 
@@ -187,6 +201,7 @@ func (m *txObjectMap) ToTxObjects() []*TxObject {
 	for _, txObj := range m.mapByHash {
 		txObjs = append(txObjs, txObj)
 	}
+	verifTraceSnapshot(m, txObjs)
 	return txObjs
 }
 
@@ -202,12 +217,14 @@ func (m *txObjectMap) ToTxs() tx.Transactions {
 }
 
 func (m *txObjectMap) Fill(txObjs []*TxObject) []*TxObject {
+	verifTrace(m, "pre.fill", nil)
 	m.lock.Lock()
 	defer m.lock.Unlock()
 
 	inserted := make([]*TxObject, 0, len(txObjs))
 	for _, txObj := range txObjs {
 		if _, found := m.mapByHash[txObj.Hash()]; found {
+			verifTrace(m, "fill.dup", txObj)
 			continue
 		}
 		// skip account limit check
@@ -218,6 +235,7 @@ func (m *txObjectMap) Fill(txObjs []*TxObject) []*TxObject {
 		m.mapByHash[txObj.Hash()] = txObj
 		m.mapByID[txObj.ID()] = txObj
 		inserted = append(inserted, txObj)
+		verifTrace(m, "fill", txObj)
 		// skip cost check and accumulation
 	}
 	return inserted
